@@ -558,6 +558,29 @@ Example C03_regex_inverts_indented_checks_nonvacuous :
   fill_checks w_ind_text = w_cks /\ In ch_nl w_ind_text.
 Proof. split; [exact (proj1 w_ind_checks)|]. split; [exact (proj2 w_ind_checks)|]. vm_compute. tauto. Qed.
 
+(** 5g. (round 5b) C03_regex_inverts_printer, CHECK part, for the INDENTED printer itself: for EVERY table the indented
+    printer accepts (any columns, defaults, generated columns, primary key, foreign keys, options), every indent that
+    is a non-empty run of blanks, CHECK constraints with \w+ names (or none) and wrapped expressions, and a body
+    ([print_body_ind]) free of the letters CHECK: fillChecks applied to the indented CREATE TABLE -- the text SQLite
+    stores when the indented export is executed -- returns exactly the table's constraints.  (For a table without
+    constraints the premise is on the whole text.)  The other recoveries on the indented statement are observed only. *)
+From Atlas Require Import Sqlite.ExportIndentTableProofs.
+Theorem C03_regex_inverts_indented_printer_checks_except :
+  forall (ind : bytes), ind <> [] -> forallb (N.eqb 32) ind = true ->
+  forall (x : xtable) (b3 txt : bytes),
+  print_body_ind ind x = Some b3 -> print_table_ind ind x = Some txt ->
+  occurs_ci K_CHECK (norm b3) = false ->
+  (t_checks (x_t x) = [] -> occurs_ci K_CHECK (norm b3 ++ ch_nl :: ch_rp :: opts_suffix (x_t x)) = false) ->
+  Forall check_wf (t_checks (x_t x)) ->
+  fill_checks txt = map kopt (t_checks (x_t x)).
+Proof. exact fill_checks_print_table_ind. Qed.
+Print Assumptions C03_regex_inverts_indented_printer_checks_except.
+Example C03_regex_inverts_indented_printer_checks_nonvacuous :
+  exists b3 txt, print_body_ind [32;32]%N wi_x = Some b3 /\ print_table_ind [32;32]%N wi_x = Some txt /\
+    occurs_ci K_CHECK (norm b3) = false /\ fill_checks txt = map kopt (t_checks (x_t wi_x)) /\ t_checks (x_t wi_x) <> [].
+Proof. eexists. eexists. split; [vm_compute; reflexivity|]. split; [vm_compute; reflexivity|]. split; [vm_compute; reflexivity|]. split; [vm_compute; reflexivity|discriminate]. Qed.
+
+
 From Atlas Require Import Diff.Schema Sqlite.ExportColumnProofs.
 Theorem C03_regex_inverts_printer_genexpr_table_except :
   forall x cols1 c cols2 e ty txt,
